@@ -32,6 +32,25 @@ NOT_APPLICABLE = {
 
 # property id -> (technique, level category, level text, level note, design ref)
 CLAIMED = {
+    "C04": ("attribute-definedness over the class hierarchy along the call graph of the random_gauge branch; "
+            "constructor parameter -> store -> load chain",
+            "other",
+            "Decides that the documented random_gauge option is executable (every attribute read on that path is stored "
+            "somewhere in the Data_K hierarchy; every documented option is stored under a name that is read) and that the "
+            "random unitary multiplies exactly the degenerate column blocks of the eigenvector matrix used by _rotate. "
+            "Does not decide k+G periodicity or numerical gauge invariance of the formulas.",
+            "Trusted: Python ast, E0 index (MRO, self-attribute stores incl. setattr). getattr with computed names is not followed.",
+            "DESIGN.md §3 C04"),
+    "C11": ("order-taint dataflow from directory listings to positional uses; f-string pattern agreement with "
+            "constant-evaluated index parser; CFG dominance rules on run()'s restart bookkeeping",
+            "other",
+            "Decides the clause 'must not depend on the order in which the file system lists the restart files' for "
+            "run_grid.py and grid/Kpoint.py (no positional use of a listing), that reader/glob/parser of the weight files "
+            "invert the writer's name pattern, that the append-only K-list file receives each new point exactly once, that "
+            "storage paths are bound to list positions before evaluation and that merging never deletes an already dumped "
+            "point. Does not decide equality of restarted and uninterrupted results.",
+            "Trusted: Python ast, E1/E2 engines, documented unordered glob/listdir.",
+            "DESIGN.md §3 C11"),
     "C12": ("AST + CFG must-pass-through and monotone-update (typestate) rule on run_grid.process/run; def-use "
             "pairing of result and K-point; sibling cross-check of serial/parallel arms",
             "other",
@@ -41,6 +60,65 @@ CLAIMED = {
             "coordinate-based re-ordering). Does not decide floating-point reassociation of the sum.",
             "Trusted: Python ast, the E0-E2 engines, the documented contract of ray.wait.",
             "DESIGN.md §3 C12"),
+    "C15": ("sibling cross-check of border computations; structural rule on the window-edge arms; def-use on Tabulator",
+            "other",
+            "Decides that all four 'group by gaps' sites use one definition of a group (strict >, +1, sentinels, pairing, "
+            "even borders for Kramers), that select_window_degen removes/adds whole multiplets of any size at both window "
+            "edges, that tabulated per-band values come from per-group averages and that wannierise uses exclude/include for "
+            "frozen/outer windows. Does not decide numerical ties at exactly the threshold.",
+            "Trusted: Python ast; the enumerated idioms (slice store or inner loop walking while gap < thresh).",
+            "DESIGN.md §3 C15"),
+    "C17": ("loop-carried def-use (accumulator chain) on dataSmooth; constant folding of permutation tuples; polynomial "
+            "comparison of convolution window bounds",
+            "other",
+            "Decides that the smoothed data are the composition of every axis smoother (accumulator threaded through the "
+            "loop, index = axis, all axes, result returned), that AbstractSmoother's output permutation inverts its input "
+            "permutation for every axis (ndim<=6), that the kernel window is centred and normalised by its own sum, and "
+            "that VoidSmoother is the identity. Does not decide linearity/values of the convolution.",
+            "Trusted: Python ast, E2 reaching definitions, E3 polynomial normal form.",
+            "DESIGN.md §3 C17"),
+    "C18": ("writer/reader agreement: slice-length functions folded over both parities, loop-nest/transpose composition, "
+            "format-field positions, property-list folding; order taint on the npz directory listing",
+            "other",
+            "Decides that the Wannier-centre WT reader inverts the writer for every number of Wannier functions, that "
+            "_tb.dat/_hr.dat element order and numeric columns agree between writer and reader, and that the npz directory "
+            "writer/loader agree on property names, R-matrix file names and load order. Does not decide printed precision.",
+            "Trusted: Python ast; integer constant folding of slice bounds for n=0..9 (lengths are 2-periodic in n).",
+            "DESIGN.md §3 C18"),
+    "C19": ("class-hierarchy rules: container-kind (dict keyed by k) vs subscripts, attribute definedness, npz tag "
+            "contract vs constructor signature, extension agreement, text layout composition writer/reader",
+            "other",
+            "Decides that the three text writers index the per-k dictionary correctly, read only existing attributes, and "
+            "produce the loop order/header/columns the matching readers reshape/transposes/unpack; that every npz tag of the "
+            "16 SavableNPZ classes is a constructor parameter and an attribute; that npz file extensions agree between "
+            "WannierData.to_npz and from_npz; that equals() compares what the subclass adds. Does not decide printed precision.",
+            "Trusted: Python ast, E0 index.",
+            "DESIGN.md §3 C19"),
+    "C26": ("exact polynomial normal form of the interpolation expressions; CFG must-pass rule 'centre write => cache "
+            "invalidation and rvec rebuild'; positional/def-use pairing of index maps and spin channels",
+            "other",
+            "Decides that every interpolated quantity is x0 + alpha (x1 - x0) over all common keys (so alpha=0/1 give the "
+            "endpoints identically) and that the interpolated system's R-vector shifts are rebuilt from the interpolated "
+            "centres on every path. Does not decide equality of evaluated band quantities.",
+            "Trusted: Python ast, E1 CFG, E3 algebra.",
+            "DESIGN.md §3 C26"),
+    "C32": ("reaching definitions (parameter liveness) over all model builders; sibling comparison of hop tables after "
+            "resolving temporaries; Hermitian-partner pattern rule",
+            "other",
+            "Decides that no builder parameter is shadowed/dead, that Haldane_ptb and Haldane_tbm describe the same "
+            "lattice/sites/on-site/hop multiset, and that every imported hopping has its Hermitian partner at -R with the "
+            "R list closed under negation. Does not decide band equality with the source package numerically.",
+            "Trusted: Python ast, E2.",
+            "DESIGN.md §3 C32"),
+    "C33": ("owner/provenance dataflow (self / spin-up / spin-down) on every corner Fourier transform; MRO "
+            "exhaustiveness; exact rational extraction of corner offsets from phase factors",
+            "other",
+            "Decides that each corner transform multiplies object X's Hamiltonian with phases built from X's own R-vector "
+            "list and transforms with X's rvec, writes the matching spin block, that every selectable Data_K class defines "
+            "both corner methods, that fast/reference/k.p corner offsets are all (i-1/2) dK, and that band selection and the "
+            "phonon map are applied to corners. Does not decide numerical equality of energies.",
+            "Trusted: Python ast, E2, E3.",
+            "DESIGN.md §3 C33"),
 }
 
 
